@@ -390,7 +390,7 @@ func (x *Exec) globalValue(fr *Frame, st *State, obj *types.Var) Value {
 		if p, ok := v.(PtrV); ok && x.globalHasInit(obj) {
 			// package-level pointers with an initialiser are non-nil and allocated
 			// (assumes the variable is not reassigned to nil; listed in the evidence)
-			x.GlobalFacts = append(x.GlobalFacts, Gt(p.Addr, IntLit(0)), Select(Var("alloc0", ArrOf(SBool)), p.Addr))
+			x.GlobalFacts = append(x.GlobalFacts, Gt(p.Addr, IntLit(0)), allocAt(Var("alloc0", SInt), p.Addr))
 			x.Trusted["package-level pointer "+obj.Pkg().Name()+"."+obj.Name()+" is initialised at start-up and never nil"] = true
 		}
 		if m, ok := v.(MapV); ok && x.globalHasInit(obj) {
@@ -605,7 +605,7 @@ func (st *State) heapArr(key string, elem *Sort) *Term {
 			name = fmt.Sprintf("H%d_%s_%s", st.epoch, sanitize(key), lh.tag)
 			if lh.newOnly {
 				q := Var("qn_"+lh.tag+"_"+sanitize(key), SInt)
-				st.assumeRaw(Forall([]*Term{q}, Implies(Select(lh.alloc, q), Eq(Select(Var(name, ArrOf(elem)), q), Select(Var(prev, ArrOf(elem)), q)))))
+				st.assumeRaw(Forall([]*Term{q}, Implies(allocAt(lh.alloc, q), Eq(Select(Var(name, ArrOf(elem)), q), Select(Var(prev, ArrOf(elem)), q)))))
 			}
 			if lh.only != nil {
 				q := Var("qn_"+lh.tag+"_"+sanitize(key), SInt)
@@ -653,7 +653,7 @@ func (x *Exec) assumeLeaf(st *State, li leafInfo, t *Term) {
 		st.assumeRaw(And(Le(IntLit(0), t), Le(t, IntLit(1<<48))))
 		if li.Kind != "base" && st.alloc != nil {
 			// no dangling references: what a stored pointer or map value denotes is allocated
-			st.assumeRaw(Or(Eq(t, IntLit(0)), Select(st.alloc, t)))
+			st.assumeRaw(Or(Eq(t, IntLit(0)), allocAt(st.alloc, t)))
 		}
 	case "opaque", "func":
 		st.assumeRaw(Le(IntLit(0), t))
@@ -785,8 +785,9 @@ func (x *Exec) heapStore(st *State, p PtrV, v Value) {
 func (x *Exec) allocAddr(st *State, hint string) *Term {
 	a := Var(x.fresh("addr_"+sanitize(hint)), SInt)
 	st.assumeRaw(And(Gt(a, IntLit(0)), Le(a, IntLit(1<<48))))
-	st.assumeRaw(Not(Select(st.alloc, a)))
-	st.alloc = Store(st.alloc, a, TTrue)
+	// allocation time stamps: the new object is the one allocated at the next tick
+	st.alloc = Add(st.alloc, IntLit(1))
+	st.assumeRaw(Eq(App("alloctime", SInt, a), st.alloc))
 	return a
 }
 
@@ -794,7 +795,7 @@ func (x *Exec) assumeAllocated(st *State, addr *Term) {
 	if addr.IsConst() {
 		return
 	}
-	st.assumeRaw(Or(Eq(addr, IntLit(0)), Select(st.alloc, addr)))
+	st.assumeRaw(Or(Eq(addr, IntLit(0)), allocAt(st.alloc, addr)))
 }
 
 // ---------------------------------------------------------------- maps
@@ -2017,4 +2018,13 @@ func (x *Exec) globalInitValue(st *State, obj *types.Var) (Value, bool) {
 	}
 	x.Trusted["package-level variable "+obj.Pkg().Name()+"."+obj.Name()+" holds its initialiser (never reassigned: assumed)"] = true
 	return out, true
+}
+
+// allocAt: address a is allocated at allocation time t.  Every address has a fixed
+// allocation time stamp alloctime(a) (0 = never); the state carries the current time.
+// The set of allocated addresses only grows, without quantifiers: a callee that may
+// allocate simply moves the time forward by an unknown amount.
+func allocAt(t, a *Term) *Term {
+	at := App("alloctime", SInt, a)
+	return And(Lt(IntLit(0), at), Le(at, t))
 }
